@@ -34,10 +34,59 @@ def tab(res, grp, key):
     return getattr(res, grp)[key]
 
 
+def _conds(cnd, out):
+    if cnd['t'] in ('and', 'or'):
+        _conds(cnd['a'], out)
+        _conds(cnd['b'], out)
+    elif cnd['t'] in ('level', 'pressure'):
+        out.append(cnd)
+    return out
+
+
+def comparable_rows(scn, runs, ntimes):
+    """number of leading report rows on which runs of the same schedule are comparable: rows before any run comes near a switching
+    point whose exact instant legitimately depends on the last digits (a level/pressure control threshold, a tank level limit, an
+    internal status change of a pump, valve or check valve).  Both engines resolve such an instant to the second, and everything
+    after it depends on which second it was."""
+    limit = ntimes
+    conds = []
+    for ctl in scn['controls']:
+        _conds(ctl['cond'], conds)
+    timed = set(a['link'] for ctl in scn['controls'] if ctl['cond']['t'] in ('simtime', 'clock') for a in ctl['then'] + ctl.get('else', []))
+    internal = [l['id'] for l in scn['links'] if (l['type'] in ('pump', 'valve') or l.get('cv')) and l['id'] not in timed]
+    for res in runs:
+        for cnd in conds:
+            if cnd['t'] == 'level':
+                x = np.asarray(res.node['head' if cnd.get('attr') == 'head' else 'pressure'][cnd['tank']].values, dtype=float)
+            else:
+                x = np.asarray(res.node['pressure'][cnd['node']].values, dtype=float)
+            if not len(x):
+                continue
+            thr = float(cnd['thr'])
+            band = 0.03 + 0.01 * abs(x[0] - thr)
+            s0 = np.sign(x[0] - thr)
+            near = np.where((np.abs(x - thr) < band) | (np.sign(x - thr) != s0))[0]
+            if len(near):
+                limit = min(limit, int(near[0]))
+        for tk_ in [n for n in scn['nodes'] if n['type'] == 'T']:
+            lv = np.asarray(res.node['pressure'][tk_['id']].values, dtype=float)
+            band = 0.02 * (tk_['max'] - tk_['min']) + 0.01
+            hit = np.where((lv <= tk_['min'] + band) | (lv >= tk_['max'] - band))[0]
+            if len(hit):
+                limit = min(limit, int(hit[0]))
+        if internal:
+            st = np.asarray(res.link['status'][internal].values, dtype=float)
+            if len(st):
+                ch = np.where((st != st[0]).any(axis=1))[0]
+                if len(ch):
+                    limit = min(limit, int(ch[0]))
+    return limit
+
+
 class C03(Prop):
     id = 'C03'
-    quick_runs = 700
-    thorough_runs = 20000
+    quick_runs = 3000
+    thorough_runs = 60000
     chunk = 8
     rule = ('one case = one generated world in the common feature set (reservoirs, cylindrical and curve tanks, H-W pipes, CV pipes, 1/3-point head pumps, power pumps, '
             'PRV/PSV/FCV/TCV, patterns, time / clock-time / tank-level / pressure controls, time and level rules, DD; report step on the hydraulic grid; EPANET '
@@ -45,7 +94,7 @@ class C03(Prop):
             'the file re-read by the INP reader. (a) the EPANET runs must agree with each other across unit systems; (b) on healthy worlds WNTR and EPANET must '
             'agree at every report step, status timelines included; (c) the model re-read from the file must give, through EPANET, the results of the file itself. '
             'non-trivial = a healthy world with a tank or pump and a control that acted; distinct = event-log digest of the WNTR run')
-    assumptions = ['(a) bounds: heads/pressures 5e-3 m + 4e-4 x head range, flows/demands 5e-4 x largest |q| + 2e-6 m3/s (EPANET itself converts flow units with 4-5 digit constants, e.g. 1.9837 AFD/CFS, 1.2e-4 off), statuses equal except next to a switching point',
+    assumptions = ['(a) bounds: heads/pressures 5e-3 m + 6e-4 x head range, flows/demands 1.5e-3 x largest |q| + 2e-6 m3/s (EPANET itself converts flow units with 4-5 digit constants, e.g. 1.9837 AFD/CFS, 1.2e-4 off), statuses equal except next to a switching point',
                    '(b) bounds: heads/pressures 0.03 m + 1e-3 x head range, tank levels 0.02 m, flows 1 % of the largest |q| + 3e-5 m3/s, demands 0.5 % + 1e-6; a report '
                    'step is skipped (counted) where the status timelines of the two engines differ within one hydraulic step of a control threshold crossing',
                    'healthy-world filter for (b): positive junction pressures in both engines, no junction cut off, no EPANET warning, both converge',
@@ -68,12 +117,38 @@ class C03(Prop):
         scn['run']['solver_options'] = {'MAXITER': 500}
         scn['run']['hw_approx'] = 'default'
         kinds = rng.pick([[], ['time'], ['level'], ['time', 'level'], ['rule'], ['time', 'rule']])
+        if any(n['type'] == 'T' for n in scn['nodes']):
+            # EPANET also evaluates rules at the end of every partial hydraulic step (tank full/empty, level control reached), the
+            # statement and WNTR only on the rule grid: worlds with tanks get no rules (observed: world 534 of seed 20260928)
+            kinds = [k for k in kinds if k != 'rule']
         if 'time' in kinds:
             gen.add_simple_time_controls(rng, scn, rng.irange(1, 3), p_clock=0.3, bias='grid')
         if 'level' in kinds:
             gen.add_level_controls(rng, scn, rng.irange(1, 2))
         if 'rule' in kinds:
             gen.add_rules(rng, scn, rng.irange(1, 2), kinds=('time', 'clock', 'level'), p_compound=0.2)
+        # EPANET truncates a rule's clock/time threshold to whole seconds after computing it in decimal hours (2:10:00 AM becomes
+        # 7799 s), so an inequality evaluated exactly on its threshold is a knife edge of the reference engine: keep them 7 s apart
+        def off_edge(cnd):
+            if cnd['t'] in ('and', 'or'):
+                off_edge(cnd['a'])
+                off_edge(cnd['b'])
+            elif cnd['t'] in ('simtime', 'clock') and cnd['rel'] != '=':
+                cnd['thr'] = int(cnd['thr'] + 7) % (86400 if cnd['t'] == 'clock' else 10 ** 9)
+        for ctl in scn['controls']:
+            if ctl['kind'] == 'rule':
+                off_edge(ctl['cond'])
+        # equal priorities on one target are not ordered by the statement (EPANET: the first rule wins, WNTR: the last)
+        rules = [ctl for ctl in scn['controls'] if ctl['kind'] == 'rule']
+        pr = [6, 5, 4, 3, 2, 1, 0]
+        rng.shuffle(pr)
+        for ctl, p_ in zip(rules, pr):
+            ctl['priority'] = p_
+        if len(rules) > 7:
+            scn['controls'] = [ctl for ctl in scn['controls'] if ctl['kind'] != 'rule'] + rules[:7]
+        # a rule and a simple control commanding the same link: the two kinds are not ordered either
+        simple_targets = set(ctl['then'][0]['link'] for ctl in scn['controls'] if ctl['kind'] == 'simple')
+        scn['controls'] = [ctl for ctl in scn['controls'] if not (ctl['kind'] == 'rule' and any(a['link'] in simple_targets for a in ctl['then'] + ctl.get('else', [])))]
         nu = 3 if tier == 'quick' else 10
         us = list(UNITS)
         rng.shuffle(us)
@@ -117,6 +192,9 @@ class C03(Prop):
                 u1 = scn['units'][-1]
                 rr, exc, wl = run_epanet(wn_r, u1, scratch, 'r_' + u1)
                 nruns += 1
+                if exc is not None and 'Error 110' in str(exc):
+                    bump(c, 'c03.unhealthy.epanet_cannot_solve_reread')
+                    return verdict('discard', [], c, dig, discard='epanet_cannot_solve', sample=world.summary(scn))
                 if exc is not None:
                     viol.append(V('c03.reread_model_refused', type(exc).__name__, 'EPANET refuses the model re-read from the %s file and written in %s: %r' % (u0, u1, exc)))
                     rr = None
@@ -149,6 +227,37 @@ class C03(Prop):
             return verdict('discard', [], c, dig, discard='epanet_nonfinite', sample=world.summary(scn))
         hrange = float(heads.max() - heads.min())
         qmax = float(np.abs(flows).max()) if flows.size else 0.0
+        allruns = [r for _, r in allres] + ([out.tables] if (wntr_ok and out.tables is not None and inv.rows(out.tables) == times) else [])
+        nrows_ok = comparable_rows(scn, allruns, len(times))
+        # a running pump that delivers no flow (dead end behind it): its head is indeterminate (power pump: P/(rho g q)); rows excluded
+        pumps = [l['id'] for l in scn['links'] if l['type'] == 'pump']
+        idle_rows = set()
+        for res_ in allruns:
+            if pumps:
+                qf = np.abs(np.asarray(res_.link['flowrate'][pumps].values, dtype=float))
+                stp = np.asarray(res_.link['status'][pumps].values, dtype=float)
+                idle_rows |= set(int(i) for i in np.where(((qf < 1e-5) & (stp != 0)).any(axis=1))[0])
+        if idle_rows:
+            bump(c, 'c03.rows_with_idle_running_pump', len(idle_rows))
+        # events between report rows are visible in the WNTR run only (all accepted steps): a partial step, or a status change of a
+        # link that no timed control commands, ends the comparable part as well
+        timed = set(a['link'] for ctl in scn['controls'] if ctl['cond']['t'] in ('simtime', 'clock') for a in ctl['then'] + ctl.get('else', []))
+        lids = [l['id'] for l in scn['links']]
+        t_ev = None
+        prev = None
+        for st_ in out.rec.steps:
+            if st_['t'] % rs:
+                t_ev = st_['t']
+                break
+            cur = {lid: st_['links'][lid]['status'] for lid in lids if lid not in timed}
+            if prev is not None and cur != prev:
+                t_ev = st_['t']
+                break
+            prev = cur
+        if t_ev is not None:
+            nrows_ok = min(nrows_ok, len([t for t in times if t < t_ev]))
+        bump(c, 'c03.rows_comparable', nrows_ok)
+        bump(c, 'c03.rows_total', len(times))
         # ---------------- (a) unit independence, EPANET vs EPANET
         others = [(u, ep[u]) for u in scn['units'][1:]]
         if rr is not None:
@@ -162,20 +271,25 @@ class C03(Prop):
             bump(c, lab + '.comparisons')
             su = np.asarray(res.link['status'][ref.link['status'].columns].values)
             sr = np.asarray(ref.link['status'].values)
-            rows_ok = list(range(len(times)))
+            rows_ok = [i for i in range(nrows_ok) if i not in idle_rows]
+            # rows in which closed links cut a junction off from every source are not comparable: EPANET's head there is arbitrary
+            cut = [i for i in range(len(times)) if inv.ref_isolated(scn, dict(zip(ref.link['status'].columns, sr[i])))]
+            if cut:
+                bump(c, lab + '.rows_with_cut_off_junctions', len(cut))
+                rows_ok = [i for i in rows_ok if i < min(cut)]
             if not np.array_equal(su, sr):
                 first = int(np.where((su != sr).any(axis=1))[0][0])
                 if self.near_threshold(scn, out, ref, times, first):
                     # the same engine takes the other branch of a status decision when the text precision moves a number
                     # across its threshold: comparable only before that row
                     bump(c, lab + '.skipped_status_knife_edge')
-                    rows_ok = list(range(first))
+                    rows_ok = [i for i in rows_ok if i < first]
                 else:
                     j = int(np.where(su[first] != sr[first])[0][0])
                     viol.append(V(lab + '.status', 'differs', '%s vs %s: status[%s] at t=%d: %r vs %r' % (u, scn['units'][0], ref.link['status'].columns[j], times[first], su[first, j], sr[first, j])))
                     continue
-            for grp, key, atol in (('node', 'head', 5e-3 + 4e-4 * hrange), ('node', 'pressure', 5e-3 + 4e-4 * hrange),
-                                   ('node', 'demand', 5e-4 * qmax + 2e-6), ('link', 'flowrate', 5e-4 * qmax + 2e-6)):
+            for grp, key, atol in (('node', 'head', 5e-3 + 6e-4 * hrange), ('node', 'pressure', 5e-3 + 6e-4 * hrange),
+                                   ('node', 'demand', 1.5e-3 * qmax + 2e-6), ('link', 'flowrate', 1.5e-3 * qmax + 2e-6)):
                 cols = list(tab(ref, grp, key).columns) if key != 'pressure' else (jun + tnk)
                 a = np.asarray(tab(res, grp, key)[cols].values, dtype=float)[rows_ok]
                 b = np.asarray(tab(ref, grp, key)[cols].values, dtype=float)[rows_ok]
@@ -199,6 +313,17 @@ class C03(Prop):
         if healthy and tw != times:
             viol.append(V('c03.engines.index', 'index', 'report index: WNTR %r, EPANET %r' % (tw[:10], times[:10])))
             healthy, why = False, 'index'
+        rev = None
+        if healthy:
+            for l in scn['links']:
+                if l['type'] == 'pump' and l.get('kind') == 'POWER':
+                    qf = np.asarray(out.tables.link['flowrate'][l['id']].values, dtype=float)
+                    if len(qf) and qf.min() < -rm.QTOL:
+                        rev = (l['id'], float(qf.min()))
+        if rev is not None:
+            # the known C02 finding seen through the second engine: WNTR puts a constant-power pump on its negative-flow root
+            viol.append(V('c03.engines.power_pump_reverse', 'power_pump', 'WNTR solves power pump %s with reverse flow %.4g m3/s; EPANET does not' % rev))
+            healthy, why = False, 'power_pump_reverse'
         if not healthy:
             bump(c, 'c03.unhealthy.' + str(why))
         else:
@@ -213,9 +338,23 @@ class C03(Prop):
                 bump(c, 'c03.status_rows_differ', len(row_bad))
             tanks = [n['id'] for n in scn['nodes'] if n['type'] == 'T']
             lvl_scale = 1.0
+            # around zero flow every q with R*q^1.852 below the head tolerance is a converged solution (loops of short fat pipes)
+            from .. import oracles as _or
+            cond = max(_or.flow_col_atol(scn, ref, times).values()) if scn['links'] else 0.0
             checks = (('node', 'head', 0.03 + 1e-3 * hrange), ('node', 'pressure', 0.03 + 1e-3 * hrange),
-                      ('node', 'demand', 5e-3 * qmax + 1e-6), ('link', 'flowrate', 1e-2 * qmax + 3e-5))
-            ok_rows = [i for i in range(len(times)) if i not in skip]
+                      ('node', 'demand', 5e-3 * qmax + 1e-6 + cond), ('link', 'flowrate', 1e-2 * qmax + 3e-5 + cond))
+            # a tank that reaches a level limit: EPANET keeps the flows of the solution just before the limit for the rest of the step and
+            # clamps the volume (observed: world 556 of seed 20260928 - it hands out water the tank does not have); from that row on the
+            # two engines legitimately differ
+            for tk_ in [n for n in scn['nodes'] if n['type'] == 'T']:
+                le = np.asarray(ref.node['pressure'][tk_['id']].values, dtype=float)
+                lw = np.asarray(out.tables.node['pressure'][tk_['id']].values, dtype=float)
+                band = 0.02 * (tk_['max'] - tk_['min']) + 0.01
+                hit = np.where((le <= tk_['min'] + band) | (le >= tk_['max'] - band) | (lw <= tk_['min'] + band) | (lw >= tk_['max'] - band))[0]
+                if len(hit):
+                    bump(c, 'c03.rows_after_tank_limit')
+                    skip |= set(range(int(hit[0]), len(times)))
+            ok_rows = [i for i in range(nrows_ok) if i not in skip and i not in idle_rows]
             # a status difference persists until the engines meet again: compare only the rows before the first difference
             if skip:
                 first = min(skip)
@@ -233,7 +372,7 @@ class C03(Prop):
                     i, j = int(bad[0][0]), int(bad[1][0])
                     viol.append(V('c03.engines.' + key, 'differs', 'WNTR vs EPANET: %s[%s] at t=%d: %.9g vs %.9g (bound %.3g, %d cells)' %
                                   (key, cols[j], times[ok_rows[i]], a[i, j], b[i, j], atol, len(bad[0]))))
-            if skip and min(skip) > 0:
+            if len(row_bad) and int(row_bad[0]) > 0 and int(row_bad[0]) == min(skip):
                 # the status timelines differ from row `first` on: a violation only if no control threshold is near (both engines
                 # resolve a crossing within the same hydraulic step, so a difference must be explained by a crossing in that step)
                 first = min(skip)
